@@ -8,7 +8,10 @@ ls -d /verif/seeded/*/ | while read d; do
   echo "$n $p"
 done > /tmp/seedall/list.txt
 run_chain() {
-  awk -v c=$1 -v n=$chains 'NR % n == c' /tmp/seedall/list.txt | while read n p; do
+  # contiguous blocks of the (sorted) list: seeds of one property follow each other in ONE chain - the harnesses of one engine
+  # do not run side by side (three hub harnesses at once exhaust the loopback ports)
+  total=$(wc -l < /tmp/seedall/list.txt); per=$(( (total + chains - 1) / chains ))
+  awk -v c=$1 -v per=$per 'int((NR - 1) / per) == c' /tmp/seedall/list.txt | while read n p; do
     /verif/tools/seedtest.sh /verif/seeded/$n/patch.diff quick $p > /tmp/seedall/$n.log 2>&1
     if grep -q "^VIOLATION property=$p" /tmp/seedall/$n.log; then r=DETECTED; elif grep -q "patch does not apply" /tmp/seedall/$n.log; then r=NOAPPLY; else r=MISSED; fi
     echo "$r $n" >> /tmp/seedall/summary.txt
